@@ -1,19 +1,113 @@
 #!/usr/bin/env python3
 """regenerates /verif/MANIFEST.json from the table below (keeps it schema-valid)"""
-import json, os
+import json
+import os
 HERE = os.path.dirname(os.path.dirname(os.path.abspath(__file__)))
 
+TECH = ("contract-based deductive verification: sidecar contracts on the real functions, "
+        "AST->VC generator (pyvc) re-reading /repo on every run, z3 + cvc5; bounded native execution "
+        "of the same clauses only as labelled stand-in")
+
+# pid: (level text, level_note / trusted base)
 CLAIMED = {
-    # pid: (category, text, level_note, technique, design_ref)
-    'C14': ('proof',
-            "exit-code discipline of winnow_process_list / winnow_process_dict proved for all process "
-            "lists from the real AST (loop invariants, raises-iff); callers' dispatch/drain loops as slices",
-            "A-PROC (Process.exitcode semantics, process isolation) trusted; parent killed / OS partial writes out of reach",
-            "contract-based deductive verification: sidecar contracts + AST->VC generator (pyvc) + z3/cvc5; bounded native contract execution as labelled stand-in",
-            "DESIGN.md 4 C14"),
+    'C01': ("proved from the real AST: re_order_blob (one record per obs id, in obs order, permutation "
+            "independent), TaxonomyTree.backfill_assignments / _drop_level / flatten / parents / children, "
+            "validate_taxonomy_tree => wf_tree, chunk iterators' stepping, run_type_assignment slices; "
+            "bounded: whole mapping runs over taxonomy shapes x flatten/drop_level x chunking x encodings",
+            "h5py/anndata I/O, JSON round trip of per-chunk buffers and OS process isolation trusted; GPU path not verified; "
+            "end-to-end clauses (every cell mapped, path consistency across a dropped level) are bounded, not proved"),
+    'C02': ("proved: tally_votes sizing/subset/one-vote-per-row-per-iteration, aggregate_votes, choose_node "
+            "(winner = arg-max, share, average correlation, runner-up order), normalisation-before-downsampling "
+            "slice; bounded: votes recomputed from the drawn subsets with a direct Pearson computation",
+            "A-REAL (floats as reals); rng.choice / numpy reductions as trusted axioms; Pearson numerics bounded only"),
+    'C03': ("proved: choose_node / tally_votes / aggregate_votes arithmetic clauses (probability = votes/iterations "
+            "in (0,1], runner-up filtering, ordering, distinctness, sum <= 1), backfill copies; bounded: every record of "
+            "real mapping outputs incl. iteration count 1, 0 runners-up, more runners-up than siblings",
+            "A-REAL; |correlation| <= 1 bounded only (1e-6)"),
+    'C04': ("proved: seed drawn once per dispatched chunk in the parent before start() (ghost counter), "
+            "re_order_blob permutation independence, winnow_* and the dispatch/drain slices of all seven stages, "
+            "set-order independence of write_query_markers_to_h5, work split computed before any worker starts; "
+            "bounded: every completion-order permutation (<=3 workers), worker counts, PYTHONHASHSEED values",
+            "A-PROC (process isolation, exitcode semantics); real races inside multiprocessing.Manager / the "
+            "filesystem / BLAS threads are outside any contract"),
+    'C05': ("proved: chunk iterators' __next__ (consecutive, disjoint, covering, in order), _load_sparse, "
+            "_csr_to_dense, merge_csr, _merge_csr_chunk, precompute/downsample_indptr, DenseArrayRowIterator.get_batch, "
+            "transposition outer loop; bounded: row access over dense/CSR/CSC x X/layer x every chunk size, every "
+            "duplicate-free row list",
+            "h5py slicing returns stored values (trusted); inner fill pass of the CSC->CSR conversion bounded (<=3x3 "
+            "exhaustive, >100-entry random)"),
+    'C06': ("proved: factor-1 lemma pieces in tally_votes (full-size duplicate-free sorted selection), routing of "
+            "rows in run_type_assignment slices, chunk stepping, re_order_blob; bounded: permutation / deletion / "
+            "duplication / chunking metamorphic relations on real runs",
+            "A-REAL; pointwise numpy axioms trusted; float agreement checked to 1e-6 only"),
+    'C07': ("proved: to_log2CPM_in_place refuses down-sampled / non-raw data and the election normalises before "
+            "down-sampling (slice), name-based pairing in write_query_markers_to_h5, negative raw input rejected "
+            "(is_data_ge_zero, min/max tilings); bounded: scaling, declared normalisation, gene permutation, "
+            "extra genes on real runs",
+            "A-REAL: bitwise equality cannot be decided for relations that perturb float summation order"),
+    'C08': ("proved: validate_marker_lookup (ancestor fallback nearest-first, stop rule, raises-iff), "
+            "reconcile_taxonomy_and_markers, create_marker_cache_from_specified_markers error logic, "
+            "write_query_markers_to_h5 pairing by name; bounded: small-scope enumeration through real TaxonomyTree objects",
+            "TaxonomyTree queries used by the marker code are contracts proved under C10; HDF5 round trip trusted; "
+            "assumes no level name contains '/' (A-GRP)"),
+    'C09': ("proved: work-split partition and index bound in _precompute_summary_stats_from_h5ad_and_lookup, "
+            "row->cluster accumulation, merge_precompute_files (row of the file with most cells), truncation "
+            "bookkeeping; bounded: statistics files recomputed directly for random labellings / splits / workers",
+            "A-REAL (float sums); HDF5/anndata bodies abstracted; S-5 (ge1 tolerance) recorded"),
+    'C10': ("proved: validate_taxonomy_tree normal return => strict tree, get_child_to_parent, "
+            "_get_leaves_from_tree / convert_tree_to_leaves, get_all_leaf_pairs, _drop_level, flatten, parents/children; "
+            "bounded: every tree shape <= 3 levels <= 5 leaves",
+            "JSON round trip trusted; S-9/S-10 (duplicate level name / repeated child accepted by the validator) recorded"),
+    'C11': ("proved: penetrance logic (completeness, floors, exact mode), score_differential_genes, "
+            "q_score_from_pij / pij_from_stats, correct_ttest range facts, _get_validity_mask; bounded: Holm equality "
+            "on p-value grids, both marker routes end to end against scipy Welch + Holm",
+            "scipy t CDF trusted; A-REAL; S-4, S-7, N-2 recorded as open findings"),
+    'C12': ("proved: per-function selection contracts (_get_are_possible, _get_newly_full_mask, _get_maxed_out, "
+            "_update_marker_counts, _update_been_filled incl. terminal case, recalculate_utility_array_batch, "
+            "_choose_one_gene); bounded: select_all_markers on tiny marker tables (coverage >= min(2n, available))",
+            "_run_selection main-loop invariant not proved (needs counting over sets): terminal property bounded"),
+    'C13': ("proved: _calculate_csr_indptr, transposition outer loop (blocks consecutive, covering, terminating), "
+            "parallel join layout, every create_dataset chunk precondition, merge_csr / indptr arithmetic, "
+            "_get_slices_for_copy; bounded: every sparse pattern <= 3x3 (4x4 thorough) x budgets x slices, "
+            "h5ad-level pivot/shuffle/subset/stack/copy",
+            "h5py create_dataset precondition and dataset slicing semantics trusted; fill pass bounded only"),
+    'C14': ("proved for all process lists / dicts: winnow_process_list, winnow_process_dict (raises iff a non-zero exit "
+            "code is observed; a process leaves the pool only with exit code 0) and the dispatch/drain loops of all seven "
+            "parallel stages (returns normally only if every started worker ended with exit code 0); run_mapping "
+            "exceptional post-conditions (no results, no success line, log written); bounded: fault injection per "
+            "stage x worker x mode x crash point",
+            "A-PROC: Process.exitcode is None while running, stable once set, non-zero for every abnormal termination; "
+            "parent killed / OS partial writes out of reach"),
+    'C15': ("proved: re_order_blob, pure parts of the HDF5 result writer; bounded: blob -> HDF5 -> blob round trip, "
+            "CSV rows / header / %.4f confidence, taxonomy to_str/from_str on generated blobs",
+            "pandas CSV formatting and h5py bodies are outside the prover: this property is carried mostly by the bounded layer"),
+    'C16': ("proved: choose_int_dtype (returned type holds every rounded value, first fitting candidate), "
+            "GeneIdMapper.map_gene_identifiers clauses, min/max and rounding tilings, _validate_h5ad error logic and "
+            "aliasing rejection; bounded: validate_h5ad on tiny files (input bytes unchanged, X equals layer, rounding "
+            "<= 1/2 into a wide-enough type)",
+            "anndata / h5py bodies trusted; is_ensembl regex bounded; S-6 recorded as open finding"),
+    'C17': ("proved: _drop_level / flatten preserve leaf set and ancestors, tree_for_metadata captured before the "
+            "reduction, marker validation iterates the reduced tree; bounded: drop_level / flatten runs equal runs on "
+            "the reduced reference, absent level is a no-op",
+            "equality of whole runs is a bounded (execution-level) clause; floats to 1e-9"),
+    'C18': ("proved: writer/reader interface facts of the stages that are pure (work split, cluster->row, leaf "
+            "means slices); bounded: stages compose and centroid queries map to themselves with probability 1 and "
+            "correlation 1",
+            "centroid clause is numerical: bounded only (1e-6); Pearson facts not proved in this build"),
+    'C19': ("proved: run_mapping leaves no scratch entry it created on every exit path, normal or exceptional "
+            "(scratch ghost state, A-TMP); bounded: input hashes, directory snapshots, stale files, concurrent runs "
+            "for every stage",
+            "tempfile uniqueness (A-TMP) and _clean_up semantics trusted; __del__-based clean-up under A-DEL; "
+            "histories and concurrent runs are bounded executions; F-19-2 recorded"),
+    'C20': ("proved: every sink of run_mapping (JSON config, JSON log, log file) is sanitised when cloud_safe, on "
+            "normal and exceptional exits (taint ghost); bounded: cloud-safe runs over directory layouts x failure "
+            "scenarios, sanitize_paths on message templates",
+            "sanitize_paths itself is a trusted contract at proof level (bounded; S-8 recorded); open set of "
+            "third-party messages"),
 }
 
-NOT_YET = {}
+REFS = {p: f"DESIGN.md section 4 {p}" for p in CLAIMED}
+NOT_APPLICABLE = {}
 
 
 def main():
@@ -23,7 +117,7 @@ def main():
     for p in props:
         pid = p['id']
         if pid in CLAIMED:
-            cat, text, note, tech, ref = CLAIMED[pid]
+            text, note = CLAIMED[pid]
             checks.append(dict(
                 property_id=pid,
                 quick_cmd=f"./check {pid} --tier quick",
@@ -31,20 +125,25 @@ def main():
                 evidence_file=f"evidence/{pid}.json",
                 replay_cmd_template=f"./check {pid} --replay {{path}}",
                 engine="pyvc",
-                level_claimed=dict(category=cat, text=text, design_ref=ref),
-                level_note=note, technique=tech))
+                level_claimed=dict(category='proof', text=text, design_ref=REFS[pid]),
+                level_note=note, technique=TECH))
         else:
-            na.append(dict(property_id=pid, reason=NOT_YET.get(pid, "check not built yet (work in progress; see DESIGN.md 4 for the plan)")))
+            na.append(dict(property_id=pid, reason=NOT_APPLICABLE.get(pid, "no check built")))
     m = dict(
         version=1,
         setup_cmd="bash setup.sh",
-        hooks=dict(guard="CELL_TYPE_MAPPER_VERIF", enable="no hooks: contracts are sidecar files under /verif/contracts; /repo is only read (ast) and imported",
+        hooks=dict(guard="CELL_TYPE_MAPPER_VERIF",
+                   enable="no hooks: contracts are sidecar files under /verif/contracts; /repo is only read (ast) and imported",
                    baseline_off_cmd="cd /repo && /venv/bin/python -m pytest -ra -q -p no:cacheprovider --timeout=900 --continue-on-collection-errors",
                    source_commits=[], add_only=True),
         engines=[dict(name="pyvc", path="pyvc/", serves_properties=sorted(CLAIMED),
-                      kind_free_text="AST -> verification-condition generator for a typed Python subset (forward symbolic execution, loop invariants, modular calls by contract, exception outcomes), discharged by z3 5.1 / cvc5; same contract clauses executed natively for replay and bounded stand-ins")],
+                      kind_free_text="AST -> verification-condition generator for a typed Python subset (forward "
+                                     "symbolic execution, loop invariants, modular calls by contract, exception "
+                                     "outcomes, ghost state), discharged by z3 5.1 / cvc5; the same contract clauses "
+                                     "are executed natively for counter-example replay and bounded stand-ins")],
         checks=checks,
-        notes="exit codes: 0 held, 1 VIOLATION, 2 undecided (contract out of date), 3 checker error. known findings: known_findings.json",
+        notes="exit codes: 0 held, 1 VIOLATION, 2 undecided (contract out of date), 3 checker error. "
+              "recorded findings and fixes: known_findings.json; seeded changes: seeded/",
         not_applicable=na)
     with open(os.path.join(HERE, 'MANIFEST.json'), 'w') as f:
         json.dump(m, f, indent=1)
